@@ -111,9 +111,14 @@ class ColumnBackend(ArraySchemaBackend):
 
         for column_name in column_keys_to_check:
             if pd.notna(schema.default):
-                check_obj[column_name] = check_obj[column_name].fillna(
-                    schema.default
-                )
+                try:
+                    check_obj[column_name] = self.fill_default(
+                        check_obj[column_name], schema
+                    )
+                except SchemaError as exc:
+                    error_handler.collect_error(
+                        validation_type(exc.reason_code), exc.reason_code, exc
+                    )
             if schema.coerce:
                 try:
                     check_obj[column_name] = self.coerce_dtype(
